@@ -2,7 +2,7 @@
     forms, any announced byte size), reading and skipping; out-of-range indices and short input are errors.
     Statements only; proofs in proofs/CodecProofs.v. *)
 From Coq Require Import String Lia.
-From FA Require Import model.Base model.Varint model.Value model.Schema model.Utf8 model.Codec proofs.VarintProofs proofs.CodecProofs.
+From FA Require Import model.Base model.Varint model.Value model.Schema model.Utf8 model.Codec proofs.VarintProofs proofs.CodecProofs proofs.CodecSound.
 
 Open Scope string_scope. Open Scope Z_scope.
 
@@ -48,6 +48,15 @@ Theorem C03_bad_index_skipped : forall f e bs i rest,
   in_int64 i -> (i < 0 \/ len bs <= i) -> skip (S f) e (SUnion bs) (long_enc i ++ rest)%list = Err.
 Proof. intros. rewrite skip_is_dec, union_bad_index by assumption. reflexivity. Qed.
 Print Assumptions C03_bad_index_skipped.
+
+(** globally: whatever the decoder returns on ANY input has the shape the schema prescribes -- every union
+    branch index and every enum index, at every depth, lies in its schema's range ([shape] is [typedn]
+    without the numeric ranges the decoder does not check) -- and was obtained by consuming a prefix of the
+    input.  So an encoding with an out-of-range index at any position never decodes to a value. *)
+Theorem C03_decoder_sound : forall f e s bs a r, dec f e s bs = Ok (a, r) ->
+  shape f e s a /\ exists pre, bs = (pre ++ r)%list.
+Proof. intros f e s bs a r H. exact (dec_sound f e s bs a r H). Qed.
+Print Assumptions C03_decoder_sound.
 
 (** decoding never looks beyond the bytes it consumes *)
 Theorem C03_extension : forall f e s p q a r, dec f e s p = Ok (a, r) -> dec f e s (p ++ q)%list = Ok (a, (r ++ q)%list).
